@@ -434,6 +434,20 @@ def rule_08_7(rep, fx):
         pc = poly(cnt)
         # len(instance_samples) - keep, keep = payload of the Some edge of the or()
         lens = [a for m in pc for a in m if a[0] == 'call' and a[1].endswith('::len')]
+        # the number of timestamps of the instance whose sample is (still) in the main table is the same number as long as the two stores are in step (R08.13, decided
+        # in this same run): count(filter(instance_samples.iter(), |ts| datasamples.contains_key(ts))) is read as len(instance_samples)
+        if not lens:
+            for m in [tuple(_calls_in(cnt))]:
+                for a in m:
+                    if a[0] == 'call' and a[1].endswith('::count') and term_has(a, lambda x: x[0] == 'call' and x[1].endswith('::filter')) and \
+                            term_has(a, lambda x: x[0] == 'field' and x[1] == 'instance_samples') and not term_has(a, lambda x: x[0] == 'call' and x[1].rsplit('::', 1)[-1] in ('take', 'skip', 'take_while', 'skip_while', 'step_by')):
+                        cls = [c for c in fx.closures_of(b) if c.key in str(a)]
+                        if len(cls) == 1:
+                            oc = Origins(cls[0], summaries=False)
+                            r0 = resolve_captures(fx, cls[0], oc.of_local(0, cls[0].return_blocks()[0], 'term'), summaries=False)
+                            if r0[0] == 'call' and r0[1].endswith('::contains_key') and term_has(r0[2][0], lambda x: x[0] == 'field' and x[1] == 'datasamples') and \
+                                    term_has(r0[2][1], lambda x: x[0] == 'param' and x[1] == 2):
+                                lens = [a]
         keep = [a for m, c in pc.items() if c == -1 for a in m]
         ok_cnt = len(pc) == 2 and len(lens) == 1 and 'instance_samples' in str(lens[0]) and len(keep) == 1 and 'Option::or' in str(keep[0]) and sorted(pc.values()) == [-1, 1]
         guard = [(s_, t_) for s_, t_, cond, lab in edges if lab is True and cond[0] == 'bin' and cond[1] == 'Gt' and cond[3] == ('const', 'int', 0) and freeze(poly(cond[2])) == freeze(pc)]
